@@ -104,6 +104,22 @@ def do(action):
         trace({"ev": "finish", "uid": uid, "gone": ok})
 
 
+CURRENT = [None]
+HOOKS = SPEC.get("hooks") or {}
+
+
+class ThrLayer:
+    """a layer whose per-test set-up hook starts threads (a server restarted for a test): they exist before the test
+    begins; the test's window in the trace opens when the hook is done"""
+
+    @classmethod
+    def testSetUp(cls):
+        tid = CURRENT[0]
+        for a in HOOKS.get(str(tid), {}).get("before", []):
+            do(a)
+        trace({"ev": "tstart", "t": tid})
+
+
 class Base(unittest.TestCase):
     actions = ()
     tid = 0
@@ -112,7 +128,9 @@ class Base(unittest.TestCase):
         return "t%d (thr)" % self.tid
 
     def run(self, result=None):
-        trace({"ev": "tstart", "t": self.tid})
+        CURRENT[0] = self.tid
+        if not HOOKS:
+            trace({"ev": "tstart", "t": self.tid})
         try:
             return unittest.TestCase.run(self, result)
         finally:
@@ -126,6 +144,9 @@ class Base(unittest.TestCase):
 def test_suite():
     s = unittest.TestSuite()
     for t in SPEC["tests"]:
-        cls = type("T%d" % t["id"], (Base,), {"actions": t["actions"], "tid": t["id"], "__module__": "thr"})
+        ns = {"actions": t["actions"], "tid": t["id"], "__module__": "thr"}
+        if HOOKS:
+            ns["layer"] = ThrLayer
+        cls = type("T%d" % t["id"], (Base,), ns)
         s.addTest(cls())
     return s
